@@ -179,7 +179,7 @@ def run_C09(ctx):
     _run(ctx, scen, "c09")
     # memory attacks, one at a time so that the allocation counter belongs to the call
     atk = [flat(r, [], False, bomb=r["sc"].get("bomb", False), maxlimit=r["sc"].get("maxlimit", False),
-                status=r["sc"].get("status", 0))
+                biglimit=r["sc"].get("biglimit", ""), status=r["sc"].get("status", 0))
            for r in core.generate(ctx, "Gen_Frames", "Gen_Frames_D.cfg", tag="genD")["scenarios"]]
     atk += [u for s in atk for u in unary_variants(s)]
     tf = core.run_runner(ctx, "frames", atk, tag="c09mem", args=["-workers", "1"])
